@@ -762,7 +762,13 @@ func replayB(raw json.RawMessage) (bool, string, error) {
 	defer vhook.Release()
 	o := runHistory(s, cs.History)
 	if len(o.viol) > 0 {
-		return true, o.viol[0].Key + ": " + o.viol[0].Summary, nil
+		// the last violation belongs to the last event, the one the stored history was cut at
+		v := o.viol[len(o.viol)-1]
+		keys := []string{}
+		for _, x := range o.viol {
+			keys = append(keys, x.Key)
+		}
+		return true, fmt.Sprintf("%s: %s (all keys on this history: %v)", v.Key, v.Summary, keys), nil
 	}
 	return false, fmt.Sprintf("history replayed without violation: %v", o.obs), nil
 }
